@@ -602,6 +602,12 @@ func gov15Case(w *vlog.W, a *wargs, id int, rng *rand.Rand, opts harness.Options
 				voter = harness.ChainAdmin(harness.ChainA)
 			}
 			ballot := []string{"approve", "approve", "approve", "reject", "reject", "garbage", ""}[rng.Intn(7)]
+			if opts.Strategy == "a >= 1" && rng.Intn(10) < 6 {
+				// under an expression that one approval satisfies, rejections pile up first most of the time: however
+				// many there are, approval stays reachable as long as one elector has not voted
+				ballot = "reject"
+				w.Count("rejections_first_under_a_one_approval_strategy", 1)
+			}
 			pBefore, jsonBefore := g.proposal(pid)
 			availBefore := g.availableAdmins()
 			transBefore := g.transitionalAdmins()
